@@ -651,6 +651,8 @@ fn macro_forms(res: &mut PartResult) {
     let name_dyn = String::from("dyn.name");
     let lv: Vec<Label> = vec![Label::new("a", "1"), Label::new("b", "2")];
     let pairs = [("a", "1"), ("b", "2")];
+    let pairs_rep = [("r", "1"), ("r", "2"), ("r", "1")];
+    let lv_rep: Vec<Label> = vec![Label::new("r", "1"), Label::new("r", "1"), Label::new("s", "")];
     let val = String::from("dv");
     metrics::with_local_recorder(&d, || {
         macro_rules! forms {
@@ -678,6 +680,16 @@ fn macro_forms(res: &mut PartResult) {
                 check(res, concat!(stringify!($mac), "!(\"lit\", Vec<Label>)"), e("lit{a=1,b=2}", mp, "Level(2)"));
                 let _ = metrics::$mac!(name_dyn.clone(), lv.iter());
                 check(res, concat!(stringify!($mac), "!(name, labels.iter())"), e("dyn.name{a=1,b=2}", mp, "Level(2)"));
+                // a label name spelled twice (legal: multi-valued tags), an empty value, a non-ASCII name: delivered as spelled
+                // by the literal, the computed and the collection forms alike
+                let _ = metrics::$mac!("lit", "r" => "1", "r" => "2", "z" => "");
+                check(res, concat!(stringify!($mac), "!(\"lit\", \"r\" => \"1\", \"r\" => \"2\", \"z\" => \"\")"), e("lit{r=1,r=2,z=}", mp, "Level(2)"));
+                let _ = metrics::$mac!("lit", "r" => val.clone(), "r" => "2", "é" => "ü");
+                check(res, concat!(stringify!($mac), "!(\"lit\", \"r\" => value, \"r\" => \"2\", \"é\" => \"ü\")"), e("lit{r=dv,r=2,é=ü}", mp, "Level(2)"));
+                let _ = metrics::$mac!("lit", &pairs_rep);
+                check(res, concat!(stringify!($mac), "!(\"lit\", &[(r,1),(r,2),(r,1)])"), e("lit{r=1,r=2,r=1}", mp, "Level(2)"));
+                let _ = metrics::$mac!(name_dyn.clone(), lv_rep.clone());
+                check(res, concat!(stringify!($mac), "!(name, Vec<Label> with a repeated label)"), e("dyn.name{r=1,r=1,s=}", mp, "Level(2)"));
                 let _ = metrics::$mac!(target: "tgt", "lit");
                 check(res, concat!(stringify!($mac), "!(target: \"tgt\", \"lit\")"), e("lit{}", "tgt", "Level(2)"));
                 let _ = metrics::$mac!(level: Level::DEBUG, "lit", "k" => "v");
